@@ -188,7 +188,7 @@ def _ens(r):
     if r.get("many_conf"):
         # conformer-search output: dozens to hundreds of conformers of a small molecule (kept small so that the float64 reference fits)
         n, nc = min(n, 5), r["many_conf"]
-    els = [int(x) for x in rng.choice([1, 6, 7, 8, 9, 15, 16, 17, 35], size=n)]
+    els = [int(x) for x in rng.choice([1, 6, 7, 8, 9, 15, 16, 17, 35, 14, 11, 19], size=n)]     # (Si, Na, K: van der Waals radii above 2 Angstrom)
     base = rng.normal(size=(n, 3)) * r["spread"]
     coords = np.array([base + rng.normal(size=(n, 3)) * 0.3 for _ in range(nc)])
     w = rng.uniform(0.1, 2.0, size=nc)
